@@ -232,7 +232,7 @@ fn dump(k: &K, entries: u32, single: bool) {
 
 // @ob C18 quick uring_setup_teardown fns=setup_io_uring,io_uring_setup,rusl::unistd::mmap,IoUring::drop,rusl::unistd::munmap bound="entries 1,2,4; SINGLE_MMAP feature on/off; SQE128 flag on/off; one failing system call at any index (or none)" timeout=1500
 #[kani::proof]
-#[kani::unwind(8)]
+#[kani::unwind(26)]
 fn uring_setup_teardown() {
     let k = ks();
     k.model_with_one_fault();
